@@ -248,6 +248,12 @@ class Term:
                 if vals and not compiled:
                     self.param_calls.append(node.func.id)
                     return
+            g = _module_helper(node)
+            if g is not None:
+                if _helper_sanitises(g):
+                    return  # sanitised sub-term (the helper cleans what it returns)
+                self.unknown.append(f"{g.name}() (a helper of the module; what it returns is not followed)")
+                return
             # compiled element function of unknown shape: fn(x), compiled_elements[i][j](x)
             self.singular.append(f"call of compiled element function {src(node.func)[:30]}")
             return
@@ -343,10 +349,35 @@ def _combines_unbounded(cl, fi, factories):
     return None
 
 
+_CTX: dict = {}
+
+
+def _module_helper(call):
+    """The module-level function of the package a call `name(...)` resolves to (same module as the factories), else None."""
+    prog = _CTX.get("prog")
+    if prog is None or not isinstance(call.func, ast.Name):
+        return None
+    for mod in _CTX.get("modules", ()):
+        g = prog.functions.get(f"{mod}:{call.func.id}")
+        if g is not None and g.parent is None and g.cls is None:
+            return g
+    return None
+
+
+def _helper_sanitises(g, depth=0) -> bool:
+    """Every return of the module-level helper hands back a sanitised array."""
+    rets = [n.value for n in walk_local(g.node, include_self=False) if isinstance(n, ast.Return)]
+    env = local_assignments(g.node)
+    return bool(rets) and all(r is not None and _sanitised(r, env, depth + 1) for r in rets)
+
+
 def _sanitised(rv, env, depth=0) -> bool:
     if isinstance(rv, ast.Call):
         f = dotted(rv.func)
         if f == "_sanitize_derivatives":
+            return True
+        g = _module_helper(rv) if depth < 4 else None
+        if g is not None and g.name != "_sanitize_derivatives" and _helper_sanitises(g, depth):
             return True
         if f == "np.diag" and rv.args:
             return _sanitised(rv.args[0], env, depth)
@@ -658,6 +689,8 @@ def _table_driven(prog, rep, fi, cl, construct, factories) -> bool:
 
 def check(prog, rep):
     factories = discover_factories(prog)
+    _CTX["prog"] = prog
+    _CTX["modules"] = sorted({fi.module.name for fi in factories.values()})
     if len(factories) < 3:
         raise AnalysisError(f"only {len(factories)} derivative factories discovered (role-based discovery failed)")
     rep.saw("derivative factories", sorted(factories))
